@@ -8,7 +8,7 @@ body = sys.stdin.read()
 V = os.path.dirname(os.path.dirname(os.path.abspath(__file__)))
 os.makedirs(os.path.join(V, "findings", prop), exist_ok=True)
 path = os.path.join(V, "findings", prop, name + ".plan")
-open(path, "w").write(body)
+open(path, "w").write("# property=%s variant=%s expect=?\n%s" % (prop, variant, body))     # (provisional header: selects the build variant)
 def run(repo):
     r = subprocess.run([os.path.join(V, "bin/check"), "--replay", path], env=dict(os.environ, REPO=repo), stdout=subprocess.PIPE, text=True)
     m = re.search(r"replay \S+ -> (\S+) hash=\S+ ?(.*)", r.stdout)
